@@ -22,7 +22,7 @@ pub mod lib_ {
         ensures r@ == trim(line@)
     { unimplemented!() }
 
-//@fn lib::fill_buf ret=res tags=C14,C03,C06
+//@fn lib::fill_buf ret=res tags=C14,C03,C06 vis=pub
 //@spec
     requires
         old(reader).wf(),
